@@ -18,7 +18,7 @@ class TLCError(Exception):
 
 
 def workdir(name):
-    d = os.path.join(WORK, name)
+    d = os.path.join(WORK, f"{name}.{os.getpid()}")          # per process: two checks may run at the same time
     shutil.rmtree(d, ignore_errors=True)
     os.makedirs(d, exist_ok=True)
     return d
@@ -158,7 +158,7 @@ def sany(module):
 def write_cfg(name, text):
     d = os.path.join(WORK, "cfg")
     os.makedirs(d, exist_ok=True)
-    path = os.path.join(d, name)
+    path = os.path.join(d, f"{os.getpid()}.{name}")
     with open(path, "w") as fh:
         fh.write(text)
     return path
